@@ -51,6 +51,8 @@ pub struct Weights {
     pub check: u32,
     /// requests that overlap with a running task
     pub overlap: u32,
+    /// publications of a publisher that is not a CA
+    pub foreign: u32,
     /// maximal single clock advance in seconds
     pub max_advance: u32,
 }
@@ -85,6 +87,7 @@ impl Default for Weights {
             hold_parent_syncs: 0,
             check: 5,
             overlap: 0,
+            foreign: 0,
             max_advance: 14 * 86400,
         }
     }
@@ -238,6 +241,7 @@ pub fn op_strategy(w: &Weights, n_cas: usize, cfg: &WorldCfg, edges: &[(u8, u8)]
     add(w.hold_signer, any::<bool>().prop_map(|on| Op::HoldSigner { on }).boxed());
     add(w.hold_parent_syncs, prop_oneof![3 => Just(true), 1 => Just(false)].prop_map(|on| Op::HoldParentSyncs { on }).boxed());
     add(w.check, Just(Op::Check).boxed());
+    add(w.foreign, (0u8..6, 0u8..5).prop_map(|(slot, content)| Op::ForeignPublish { slot, content }).boxed());
     if w.overlap > 0 {
         // the request that overlaps with a running task: any plain request
         let plain: Vec<(u32, BoxedStrategy<Op>)> = opts
